@@ -41,7 +41,7 @@ fn worlds() -> Vec<Box<dyn DynWorld>> {
 /// property -> (world, share of that world's own run budget)
 pub const TABLE: &[(&str, &[(&str, f64)])] = &[
     ("C01", &[("fungible", 1.0), ("vault", 0.5), ("rwa", 0.5)]),
-    ("C02", &[("fungible", 1.0), ("vault", 0.5)]),
+    ("C02", &[("fungible", 1.0), ("vault", 0.5), ("rwa", 0.5)]),
     ("C03", &[("smart_account", 1.0)]),
     ("C04", &[("rwa", 1.0), ("rwa_real", 1.0)]),
     ("C05", &[("vault", 1.0)]),
